@@ -292,7 +292,7 @@ func (x *Exec) callByContract(st *State, fr *Frame, call *ssa.Call, callee *ssa.
 		preH := x.heapGet(pre, comp, srt)
 		nh := x.freshVar(comp+"_c", srt)
 		a := Var("fa", SInt)
-		cond := []*Term{Cmp("<", a, allocPre)}
+		var cond []*Term
 		for _, as := range asgs {
 			for _, c := range as.comp {
 				if c == comp {
@@ -300,8 +300,11 @@ func (x *Exec) callByContract(st *State, fr *Frame, call *ssa.Call, callee *ssa.
 				}
 			}
 		}
+		// Objects the callee does not name in assigns are unchanged.  Objects it allocates "appear" at ids >= allocPre whose
+		// pre-state content was never constrained, so identifying pre and post content there is sound (lazy allocation).
 		st.assume(Forall([]*Term{a}, Implies(And(cond...), Eq(Select(nh, a), Select(preH, a))), []*Term{Select(nh, a)}))
 		st.heap[comp] = nh
+		x.heapWfAxiom(nh, comp, st.alloc)
 		return nh
 	}
 	for _, as := range asgs {
@@ -311,7 +314,7 @@ func (x *Exec) callByContract(st *State, fr *Frame, call *ssa.Call, callee *ssa.
 	}
 	// results
 	res := x.freshResult(st, call.Type(), "ret_"+sanitize(callee.Name()))
-	post := &Env{x: x, st: st, old: pre, vars: copyVars(penv), pkg: callee.Package(), allocOld: allocPre, lazyHavoc: havoc, lazyPre: pre}
+	post := &Env{x: x, st: st, old: pre, vars: copyVars(penv), pkg: callee.Package(), allocOld: allocPre}
 	sig := callee.Signature.Results()
 	bind := func(i int, v Val) {
 		sv := SV{T: v.T, Typ: sig.At(i).Type()}
@@ -330,31 +333,10 @@ func (x *Exec) callByContract(st *State, fr *Frame, call *ssa.Call, callee *ssa.
 			bind(i, res.Tuple[i])
 		}
 	}
-	// two passes: the first discovers which components the postconditions read in the post state
-	for pass := 0; pass < 2; pass++ {
-		var facts []*Term
-		post.touched = map[string]Sort{}
-		for _, c := range spec.Ensures {
-			t := x.evalBool(post, c.E)
-			facts = append(facts, post.takeSide()...)
-			facts = append(facts, t)
-		}
-		if pass == 0 && len(post.touched) > 0 {
-			newly := false
-			for c, srt := range post.touched {
-				if !havocked[c] {
-					havoc(c, srt)
-					newly = true
-				}
-			}
-			if newly {
-				continue
-			}
-		}
-		for _, f := range facts {
-			st.assume(f)
-		}
-		break
+	for _, c := range spec.Ensures {
+		t := x.evalBool(post, c.E)
+		st.assume(And(post.takeSide()...))
+		st.assume(t)
 	}
 	// write back materialised pointer arguments whose pointee component was havocked
 	for _, m := range st.mats[nmat:] {
@@ -619,7 +601,7 @@ func (x *Exec) stepAppend(st *State, fr *Frame, call *ssa.Call) ([]*State, bool)
 		if nl, ok := litInt(n); ok && nl.Int64() == 1 {
 			x.frameCheck(s1, SlArr(s), "append")
 			row := Select(h, SlArr(s))
-			s1.heap[comp] = Store(h, SlArr(s), Store(row, Arith("+", SlOff(s), SlLen(s)), Select(Select(h, SlArr(t)), SlOff(t))))
+			s1.heap[comp] = Store(h, SlArr(s), Store(row, Sidx(SlOff(s), SlLen(s)), Select(Select(h, SlArr(t)), Sidx(SlOff(t), IntLit(0)))))
 		} else if nl, ok := litInt(n); ok && nl.Int64() == 0 {
 			// nothing
 		} else {
@@ -631,7 +613,7 @@ func (x *Exec) stepAppend(st *State, fr *Frame, call *ssa.Call) ([]*State, bool)
 			base := Arith("+", SlOff(s), SlLen(s))
 			inNew := And(Cmp(">=", k, base), Cmp("<", k, Arith("+", base, n)))
 			s1.assume(Forall([]*Term{k}, Eq(Select(Select(nh, SlArr(s)), k),
-				Ite(inNew, Select(Select(h, SlArr(t)), Arith("+", SlOff(t), Arith("-", k, base))), Select(Select(h, SlArr(s)), k))),
+				Ite(inNew, Select(Select(h, SlArr(t)), Sidx(SlOff(t), Arith("-", k, base))), Select(Select(h, SlArr(s)), k))),
 				[]*Term{Select(Select(nh, SlArr(s)), k)}))
 			s1.heap[comp] = nh
 		}
@@ -652,12 +634,12 @@ func (x *Exec) stepAppend(st *State, fr *Frame, call *ssa.Call) ([]*State, bool)
 		nrow := x.freshVar("newrow", ArraySort(SInt, es))
 		k := Var("fk", SInt)
 		st.assume(Forall([]*Term{k}, Implies(And(Cmp(">=", k, IntLit(0)), Cmp("<", k, SlLen(s))),
-			Eq(Select(nrow, k), Select(Select(h, SlArr(s)), Arith("+", SlOff(s), k)))), []*Term{Select(nrow, k)}))
+			Eq(Select(nrow, k), Select(Select(h, SlArr(s)), Sidx(SlOff(s), k)))), []*Term{Select(nrow, k)}))
 		if nl, ok := litInt(n); ok && nl.Int64() == 1 {
-			st.assume(Eq(Select(nrow, SlLen(s)), Select(Select(h, SlArr(t)), SlOff(t))))
+			st.assume(Eq(Select(nrow, SlLen(s)), Select(Select(h, SlArr(t)), Sidx(SlOff(t), IntLit(0)))))
 		} else {
 			st.assume(Forall([]*Term{k}, Implies(And(Cmp(">=", k, SlLen(s)), Cmp("<", k, newLen)),
-				Eq(Select(nrow, k), Select(Select(h, SlArr(t)), Arith("+", SlOff(t), Arith("-", k, SlLen(s)))))), []*Term{Select(nrow, k)}))
+				Eq(Select(nrow, k), Select(Select(h, SlArr(t)), Sidx(SlOff(t), Arith("-", k, SlLen(s)))))), []*Term{Select(nrow, k)}))
 		}
 		st.heap[comp] = Store(h, id, nrow)
 		f2.vals[call] = Val{T: MkSlice(id, IntLit(0), newLen, ncap)}
@@ -699,7 +681,7 @@ func (x *Exec) stepCopy(st *State, fr *Frame, call *ssa.Call) ([]*State, bool) {
 	st.assume(Forall([]*Term{a}, Implies(Not(Eq(a, SlArr(d))), Eq(Select(nh, a), Select(h, a))), []*Term{Select(nh, a)}))
 	inDst := And(Cmp(">=", k, SlOff(d)), Cmp("<", k, Arith("+", SlOff(d), n)))
 	st.assume(Forall([]*Term{k}, Eq(Select(Select(nh, SlArr(d)), k),
-		Ite(inDst, Select(Select(h, SlArr(s)), Arith("+", SlOff(s), Arith("-", k, SlOff(d)))), Select(Select(h, SlArr(d)), k))),
+		Ite(inDst, Select(Select(h, SlArr(s)), Sidx(SlOff(s), Arith("-", k, SlOff(d)))), Select(Select(h, SlArr(d)), k))),
 		[]*Term{Select(Select(nh, SlArr(d)), k)}))
 	st.heap[comp] = nh
 	fr.vals[call] = Val{T: n}
